@@ -203,13 +203,15 @@ def check (c):
     mon  = {}
     worst = 0.0
     margins = {}
-    def judge (name, measured, allowed, msg):
+    famp = observe.feed_amp (m0)
+    def judge (name, measured, allowed, msg, key = None):
         nonlocal worst
         mon [name] = mon.get (name, 0) + 1
-        worst = max (worst, measured / allowed)
-        margins [name.split (':') [0]] = max (margins.get (name.split (':') [0], 0.0), measured / allowed)
+        if key != observe.IMP_KEY:
+            worst = max (worst, measured / allowed)
+            margins [name.split (':') [0]] = max (margins.get (name.split (':') [0], 0.0), measured / allowed)
         if not (measured <= allowed) and len (viol) < 8:
-            viol.append (dict (monitor = name, key = name.split (':') [0], msg = msg, measured = measured, allowed = allowed))
+            viol.append (dict (monitor = name, key = key or name.split (':') [0], msg = msg, measured = measured, allowed = allowed))
     n = len (base ['geo'])
     variants = [ ('reverse',  dict (mask = var ['masks'][0]))
                , ('reverse2', dict (mask = var ['masks'][1]))
@@ -239,14 +241,18 @@ def check (c):
             continue
         judge ('currents:' + name, d, tol, 'variant %s: currents differ %.3g (relative to max), cond %.3g' % (name, d, ov ['cond']))
         for za, zb in zip (o0 ['Z'], ov ['Z']):
-            judge ('impedance:' + name, abs (za - zb) / abs (za), tol, 'variant %s: feed impedance %r vs %r' % (name, za, zb))
+            rel = abs (za - zb) / abs (za)
+            judge ('impedance:' + name, rel, tol, 'variant %s: feed impedance %r vs %r (largest current / feed current = %.3g)' % (name, za, zb, famp)
+                  , key = observe.imp_key (rel, tol, famp))
         for k in range (len (pts)):
             for nm, a, b in (('E', o0 ['E'][k], ov ['E'][k]), ('H', o0 ['H'][k], ov ['H'][k])):
                 judge ('near-%s:%s' % (nm, name), np.linalg.norm (a - b) / np.linalg.norm (a), tol, 'variant %s: %s at %s differs by %.3g' % (name, nm, np.round (pts [k], 4), np.linalg.norm (a - b) / np.linalg.norm (a)))
+        # field amplitudes relative to the main beam: in a null a current error of the size of the tolerance is a
+        # large factor of a small number
         ga, gb = o0 ['gain'][..., 2], ov ['gain'][..., 2]
-        sel = (ga > ga.max () - 40)
-        lin = np.abs (10 ** ((gb [sel] - ga [sel]) / 10) - 1).max ()
-        judge ('gain:' + name, lin, 2 * tol, 'variant %s: gain differs by a factor %.3g' % (name, lin))
+        fa, fb = 10 ** (np.maximum (ga, -300) / 20), 10 ** (np.maximum (gb, -300) / 20)
+        lin = float (np.abs (fa - fb).max () / fa.max ())
+        judge ('gain:' + name, lin, 2 * tol, 'variant %s: field pattern differs by %.3g of the main beam' % (name, lin))
     # ---- mirror symmetry
     if spec.get ('sym'):
         R  = np.array (spec ['sym']['R'])
